@@ -1,4 +1,5 @@
 import ChythonModel.Proofs.C01Total
+import ChythonModel.Proofs.C01Chiral
 /-!
 # C01 — canonical SMILES, equality and hash depend on structure only
 
@@ -196,35 +197,52 @@ theorem atoms_order_error_equivariant (h : TupleHash) {π : Nat → Nat} (hπ : 
     generalize atomsOrder h m = y at he
     cases he; rfl
 
-/-! ## `_chiral_morgan` (the weights of the writer) for label-free molecules -/
+/-! ## `_chiral_morgan` (the weights of the writer) -/
 
-/-- lift of `OptRel (DictEq π)` to the three outcomes of the `_chiral_morgan` model -/
-inductive ChiralRel (π : Nat → Nat) : ChiralMorgan → ChiralMorgan → Prop
+open ChythonModel.Model.ChiralMorgan in
+/-- lift of `OptRel (DictEq π)` to the outcomes of the `_chiral_morgan` model -/
+inductive ChiralRel (π : Nat → Nat) : Outcome → Outcome → Prop
   | ranks {r r'} : DictEq π r r' → ChiralRel π (.ranks r) (.ranks r')
-  | keyError : ChiralRel π .keyError .keyError
+  | keyError : ChiralRel π (.err .keyError) (.err .keyError)
 
+open ChythonModel.Model.ChiralMorgan in
 /-- for molecules without stereo labels `_chiral_morgan` *is* `atoms_order` … -/
-theorem chiral_morgan_of_no_labels (h : TupleHash) (m : MolView) (hb : stereoBondAtoms m.bonds = []) :
-    chiralMorgan h m [] = match atomsOrder h m with | some r => .ranks r | none => .keyError := by
+theorem chiral_morgan_of_no_labels (h : TupleHash) (single : Nat → Bool) (m : MolView)
+    (hb : stereoBondAtoms m.bonds = []) :
+    chiralMorgan h single m [] = match atomsOrder h m with | some r => .ranks r | none => .err .keyError := by
   simp only [chiralMorgan, hb, List.isEmpty_nil, Bool.and_self, if_true]
   cases atomsOrder h m <;> rfl
 
+open ChythonModel.Model.ChiralMorgan in
 /-- … hence the writer's weights (`_smiles_order`) of two label-free descriptions of one structure agree up to `π`. -/
-theorem chiral_morgan_equivariant_of_no_labels (h : TupleHash) {π : Nat → Nat} (hπ : Function.Injective π)
-    {m m' : MolView} (hk : KeysOK m) (hmm : MolEq π m m')
+theorem chiral_morgan_equivariant_of_no_labels (h : TupleHash) (single : Nat → Bool) {π : Nat → Nat}
+    (hπ : Function.Injective π) {m m' : MolView} (hk : KeysOK m) (hmm : MolEq π m m')
     (hb : stereoBondAtoms m.bonds = []) (hb' : stereoBondAtoms m'.bonds = []) :
-    ChiralRel π (chiralMorgan h m []) (chiralMorgan h m' []) := by
-  rw [chiral_morgan_of_no_labels h m hb, chiral_morgan_of_no_labels h m' hb']
+    ChiralRel π (chiralMorgan h single m []) (chiralMorgan h single m' []) := by
+  rw [chiral_morgan_of_no_labels h single m hb, chiral_morgan_of_no_labels h single m' hb']
   have he := atoms_order_equivariant h hπ hk hmm
   revert he
   cases atomsOrder h m <;> cases atomsOrder h m' <;> intro he <;> cases he
   · exact .keyError
   · rename_i hrr; exact .ranks hrr
 
-/-- a labelled molecule is outside this model (the driver answers `notmodelled`; validated relationally) -/
-theorem chiral_morgan_labelled_not_modelled (h : TupleHash) (m : MolView) (a : Nat) (rest : List Nat) :
-    chiralMorgan h m (a :: rest) = .notModelled := by
-  simp [chiralMorgan]
+open ChythonModel.Model.ChiralMorgan in
+/-- labelled double bonds are outside this model (the driver answers `notmodelled`; validated relationally) -/
+theorem chiral_morgan_bond_labels_not_modelled (h : TupleHash) (single : Nat → Bool) (m : MolView)
+    (labels : List (Nat × Bool)) (hb : stereoBondAtoms m.bonds ≠ []) :
+    chiralMorgan h single m labels = .notModelled := by
+  have : (stereoBondAtoms m.bonds).isEmpty = false := by
+    cases hs : stereoBondAtoms m.bonds with
+    | nil => exact absurd hs hb
+    | cons _ _ => rfl
+  simp [chiralMorgan, this]
+
+open ChythonModel.Model.ChiralMorgan in
+/-- the `while True` loop of `__differentiation` terminates within the fuel the model gives it
+    (every pass that changes `morgan` removes an atom from `atoms_stereo`): `fuelOut` is never returned. -/
+theorem chiral_morgan_fuel_suffices (h : TupleHash) (single : Nat → Bool) (m : MolView) (labels : List (Nat × Bool)) :
+    chiralMorgan h single m labels ≠ .fuelOut :=
+  chiralMorgan_fuel h single m labels
 
 /-! ## no exception on well-formed input; `Element.__hash__` never hashes `None` -/
 
